@@ -15,6 +15,31 @@
 
 namespace etl::chrono {
 
+namespace detail {
+
+/// Whether the conversion factor ratio_divide<From, To> between two (positive)
+/// periods is representable, and whether it is a whole number. Computed from the
+/// cross-cancelled factors without forming the quotient, so that an
+/// unrepresentable factor removes the converting constructor of duration from
+/// overload resolution instead of being a hard error.
+template <typename From, typename To>
+struct period_quotient {
+private:
+    static constexpr intmax_t g1 = gcd(From::num, To::num);
+    static constexpr intmax_t g2 = gcd(From::den, To::den);
+    static constexpr intmax_t n1 = From::num / g1;
+    static constexpr intmax_t n2 = To::den / g2;
+    static constexpr intmax_t d1 = From::den / g2;
+    static constexpr intmax_t d2 = To::num / g1;
+    static constexpr intmax_t max = numeric_limits<intmax_t>::max();
+
+public:
+    static constexpr bool representable = (n1 <= max / n2) and (d1 <= max / d2);
+    static constexpr bool integral      = representable and d1 == 1 and d2 == 1;
+};
+
+} // namespace detail
+
 /// \ingroup chrono
 /// @{
 
@@ -82,8 +107,8 @@ struct duration {
     /// exactly divisible by period
     template <typename Rep2, typename Period2>
         requires(
-            treat_as_floating_point_v<rep>
-            or (ratio_divide<Period2, period>::den == 1 and not treat_as_floating_point_v<Rep2>)
+            (treat_as_floating_point_v<rep> and detail::period_quotient<Period2, period>::representable)
+            or (detail::period_quotient<Period2, period>::integral and not treat_as_floating_point_v<Rep2>)
         )
     constexpr duration(duration<Rep2, Period2> const& other) noexcept
         : _rep(static_cast<Rep>(
